@@ -35,6 +35,7 @@ package perio
 //           handler under the SEID it was returned for
 //   CLOSE   every ticker is stopped, the table emptied, the loop left
 //@ func (s *Server) Serve(wg *sync.WaitGroup)
+//@   locals e:perio.Event | perioGroup:*perio.PERIOGroup | ok:bool | err:error | urrids:map[uint32]struct{} | ok:bool | period:time.Duration | perioGroup:*perio.PERIOGroup | ok:bool | lSeidUrridsMap:map[uint64][]uint32 | perioGroup:*perio.PERIOGroup | ok:bool | lSeid:uint64 | urrIds:map[uint32]struct{} | urrId:uint32 | seidUsars:map[uint64][]report.USAReport | err:error | seid:uint64 | usars:[]report.USAReport | rpts:[]report.Report | i:int | period:time.Duration | perioGroup:*perio.PERIOGroup
 //@   requires perioWF(s) && wg != nil && s.handler != nil && s.queryURR != nil
 //@   modifies *
 //@   serves C15 C10 C07
